@@ -397,7 +397,7 @@ reg(
     "with constant factors, 2 if-else forms, and a neutral one): complete for <= 1 special form (every position, dependency pattern, "
     "state equation; every permutation of the equation list on the chain pattern), for every pair of special forms, and for every "
     "full-length chain over 6 core forms; under every set of the 13 simplification switches and eliminable_variable_expression within "
-    "Hamming distance 1 of the default and of all-on (distance 2, thorough, on the core pairs) and 9 named sets elsewhere. The real "
+    "Hamming distance 1 of the default and of all-on (distance 2, thorough, on the core pairs) and 10 named sets elsewhere. The real "
     "generate + simplify runs on each; an exception or logged warning counts as reported failure. Otherwise, for affine models the "
     "decision is exact: every recorded elimination (signed alias pair, algebraic unknown turned constant with its value) must be a "
     "linear consequence of the original rows, and the projection of the original solution set onto the remaining coordinates must "
@@ -421,4 +421,61 @@ reg(
     "An exception raised by simplify() itself is not judged unless it names a dangling model variable (e.g. the crash of "
     "reduce_affine_expression applied twice under iterative_simplification trips over its internal vectors and is reported only "
     "in DESIGN.md); scalar variables only.",
+)
+
+reg(
+    "C22",
+    "E4-enum",
+    "exploration",
+    "exhaustive enumeration of delay() models over duration-symbol categories x placements x option sets through the real "
+    "transfer_model, against a reference category table and reference evaluation of the delay arguments",
+    "Models y = delay(expr, dur) on a fixed declaration header with two or three symbols of each category {literal, constant, "
+    "parameter (valued, unvalued, expression-valued, array element), fixed input (scalar, element of an 'each fixed=true' array), "
+    "free input (default, explicit fixed=false, array element), time, state (one of them with fixed=true), der(state), algebraic}: "
+    "dur over every single symbol (21) and every ordered pair of categories joined by + and by * (185 durations quick, 329 "
+    "thorough), expr in {x, 2*x+p, xv[2], whole vector xv} outside and {x, 2*xv[i]+p, xv[i]} (thorough: xv[i-1]) inside "
+    "'for i in 2:3'; two-delay models over every ordered pair of single-symbol durations (9x9 quick, 21x21 thorough) x layouts "
+    "{out/out, out/loop, loop/out, same loop, two loops} x 3 (thorough 9) expression pairs (thorough: also every two-symbol "
+    "duration next to p / u in either position); each under the option sets default, expand_vectors, expand_vectors+expand_mx, "
+    "detect_aliases, replace_constant_*, replace_parameter_*, reduce_affine_expression, unroll_loops=False (thorough: their "
+    "combinations, expand_mx, replace_parameter_expressions alone). One transfer_model call (cache and codegen off) "
+    "on a scratch folder per (model, option set): 14.2k quick, 341k thorough. Oracle: accepted iff every free symbol of "
+    "every duration is a literal, constant, parameter or fixed input (category from our own declarations); for accepted "
+    "models every source delay is linked to its delay state (perturbing the delay inputs and the target variable in the real "
+    "DAE residual, or via the alias relation when the target was eliminated) and delay_arguments_function must return, at "
+    "that state's position in model.delay_states, the reference value (vf.ref.mast.evn) of the source expression and duration "
+    "on 3 grid points; delay states must be inputs, 2 outputs per delay state, no delay state without a source delay.",
+    "Any exception counts as rejection of a should-reject model (ValueError from Model._post_checks is the documented one and "
+    "is counted separately); any exception on a should-accept model is a violation. Durations are loop-invariant scalars: "
+    "pv[i] or the loop index as a duration, nested delays, delays inside functions / if-equations, aliases that change a "
+    "symbol's category (algebraic = fixed input), eliminate_constant_assignments, cache / codegen (C19) and arrays with "
+    "element-wise fixed={..} are outside the alphabet. Finite grid. transfer_model parses through pymoca's default parse cache "
+    "(worker-private folder).",
+)
+
+reg(
+    "C24",
+    "E4-enum",
+    "exploration",
+    "bounded-exhaustive expression trees / renamings / structural deviations; generated module executed with the real "
+    "OdeModel (solver step stubbed) and compared with a reference classification and evaluator on a grid",
+    "Three families of models are generated as text, compiled by pymoca.backends.sympy.generator.generate, the source is "
+    "compiled and executed (real runtime.OdeModel, compute_fg stubbed) and the object is compared with a reference (own "
+    "one-level flattener + vf.ref.mast evaluator). expr: every tree with <= 3 (quick) / 4 (thorough) operator nodes over "
+    "+ - * / ^, unary minus, sin/cos/tan, der(x), leaves x v p c u time 2 (state, algebraic, parameter, constant, input, "
+    "time, literal; rotating start, thorough: every start for <= 3 nodes) as right-hand side (<= 2 nodes also as "
+    "left-hand side), printed with minimal and with full parentheses. names: base model (one variable per class + "
+    "component a with a.b, a.k) with every assignment of <= 2 / 3 names of a pool (dict attributes and psi = pymoca's own "
+    "clash list, Python builtins, their suffixed twins, a__b / a__b_ / a__k / a_b, x_, t) to distinct variables. struct: "
+    "base model under every compatible set of <= 2 / 3 of 20 structural deviations (class absent / doubled, output that "
+    "is a state, der inside an expression, component with input/output members, parameter without value / start only / "
+    "negated literal, state start). Oracle: source compiles and instantiates; every eqs entry equals lhs - rhs of a flat "
+    "equation on 3 / 4 grid points (symbols, derivatives and time substituted); x v c p u y hold exactly the flat model's "
+    "states / variables (no prefix or non-state output) / constants / parameters / inputs / outputs; distinct variables "
+    "and time are distinct symbols and distinct Python identifiers.",
+    "Scalar Real models, literal (possibly negated) declaration values, one level of components, no connect; Python "
+    "keywords (lambda, None, ...) and names the generated module uses itself (sympy, mech, self, sin, OdeModel, the class "
+    "name) are not in the name alphabet; symbols are recognised by name with '.'/'__' identified and trailing "
+    "underscores ignored (inside such a group every assignment is tried); list order, x0/p0/c0/u0 and compute_fg "
+    "(sympy.solve) are not judged; finite grid, ill-conditioned or non-real points skipped.",
 )
